@@ -82,6 +82,9 @@ def St.record (s : St) (on : Bool) (d : Dep) : St :=
 
 def St.send (s : St) (m : Msg) : St := { s with out := s.out ++ [m] }
 
+/-- `records::add_records`: hand a whole dependency set to the installed record (if any). -/
+def St.recordAll (s : St) (on : Bool) (ds : List Dep) : St := ds.foldl (fun s d => s.record on d) s
+
 /-- `CellGuard::replace … drop`: run `body` with `frame` installed, then restore the thread's
 recording to exactly what it was, on every exit path. Returns what the frame recorded. -/
 def withFrame (push : Bool) (frame : Option (List Dep)) (body : St → St × Outcome) (s : St) :
@@ -115,7 +118,9 @@ def loadAndRecord (env : Env) (evalBody : St → St × Outcome) (key : Key) (s :
   match withFrame (recordsAsset (env.types key.ty).hot env.hasReloader) (some []) evalBody s with
   | (s1, .ok v, deps) =>
     (if recordsAsset (env.types key.ty).hot env.hasReloader then s1.send (.addAsset key deps) else s1, .ok v)
-  | (s1, .err e, _) => (s1, .err (.wrapped key.id e))
+  | (s1, .err e, deps) =>
+    (s1.recordAll (failedLoadRecordsToParent && recordsAsset (env.types key.ty).hot env.hasReloader) deps,
+      .err (.wrapped key.id e))
   | (s1, o, _) => (s1, o)
 
 def eval (env : Env) : Nat → St → Prog → St × Outcome
